@@ -17,8 +17,12 @@ FILE_SYSCALLS = ["mkdir", "openat", "open", "write", "close", "read", "newfstata
 LINE = re.compile(r"^(\d+)\s+(\w+)\((.*)$")
 
 
-def strace_argv(logpath, inject=None, trace=None):
+def strace_argv(logpath, inject=None, trace=None, paths=None):
+    """paths: only system calls that touch one of these paths are traced (and
+    counted, and injected): strace -P."""
     a = ["strace", "-f", "-y", "-qq", "-o", logpath, "-e", "trace=" + ",".join(trace or FILE_SYSCALLS)]
+    for p in paths or []:
+        a += ["-P", p]
     if inject:
         a += ["-e", "inject=" + inject]
     return a
